@@ -47,10 +47,11 @@ var c17Ticks = map[string]time.Duration{
 var c17Participants = []uint64{1, 2, 3}
 
 type c17Worker struct {
-	c      *rig.Cluster
-	node   *rig.Node
-	nruns  int
-	serial *atomic.Uint64
+	c        *rig.Cluster
+	node     *rig.Node
+	nruns    int
+	poisoned bool // a handler panicked: the instance is rebuilt before the next path
+	serial   *atomic.Uint64
 }
 
 func newC17Worker(serial *atomic.Uint64) (*c17Worker, error) {
@@ -79,6 +80,17 @@ func (w *c17Worker) reset() error {
 
 func (w *c17Worker) Close() { w.c.Close() }
 
+// deliver hands one message to the instance; a panic in the handler (which ends a real daemon: there is no recovery
+// interceptor) is returned as text.
+func deliver(f func() error) (err error, crash string) {
+	defer func() {
+		if r := recover(); r != nil {
+			crash = fmt.Sprint(r)
+		}
+	}()
+	return f(), ""
+}
+
 type c17Model struct {
 	active      bool
 	age         time.Duration // sum of the clock advances since the session was prepared
@@ -97,7 +109,8 @@ func sessionOf(node *rig.Node, account string) (bool, string) {
 
 func (w *c17Worker) Run(path []LOp) (bfs.Outcome, error) {
 	w.nruns++
-	if w.nruns%250 == 0 {
+	if w.nruns%250 == 0 || w.poisoned {
+		w.poisoned = false
 		if err := w.reset(); err != nil {
 			return bfs.Outcome{}, err
 		}
@@ -186,7 +199,13 @@ func (w *c17Worker) Run(path []LOp) (bfs.Outcome, error) {
 			delete(polys, fmt.Sprintf("%d|%s", 3, acct))
 			obs = "ok"
 		case "prepare":
-			err = w.node.RecvPrepare(rig.PeerName(op.From), acct, 2, parts)
+			var crash string
+			err, crash = deliver(func() error { return w.node.RecvPrepare(rig.PeerName(op.From), acct, 2, parts) })
+			if crash != "" {
+				w.poisoned = true
+				out.Viol = append(out.Viol, bfs.Viol{Key: "message-crashes-instance:" + op.Kind, What: fmt.Sprintf("after %v the instance does not answer %s: it panics (%s); a message is refused or acted on, and a daemon that panics is gone", path[:step], op, crash)})
+				return out, nil
+			}
 			if m.active {
 				if err == nil {
 					viol("prepare-on-active-accepted", fmt.Sprintf("%s while a generation for that name is active was accepted", op))
@@ -206,16 +225,26 @@ func (w *c17Worker) Run(path []LOp) (bfs.Outcome, error) {
 		case "execute", "contribute", "commit", "abort":
 			var pk []byte
 			virtualContributed = nil
-			switch op.Kind {
-			case "execute":
-				err = w.node.RecvExecute(rig.PeerName(op.From), acct)
-			case "contribute":
-				p := poly(op.From, acct)
-				_, _, err = w.node.RecvContribute(rig.PeerName(op.From), acct, p.Share(c17Self), p.VVec)
-			case "commit":
-				pk, _, err = w.node.RecvCommit(rig.PeerName(op.From), acct, pat(0x77))
-			case "abort":
-				err = w.node.RecvAbort(rig.PeerName(op.From), acct)
+			var crash string
+			err, crash = deliver(func() error {
+				var e error
+				switch op.Kind {
+				case "execute":
+					e = w.node.RecvExecute(rig.PeerName(op.From), acct)
+				case "contribute":
+					p := poly(op.From, acct)
+					_, _, e = w.node.RecvContribute(rig.PeerName(op.From), acct, p.Share(c17Self), p.VVec)
+				case "commit":
+					pk, _, e = w.node.RecvCommit(rig.PeerName(op.From), acct, pat(0x77))
+				case "abort":
+					e = w.node.RecvAbort(rig.PeerName(op.From), acct)
+				}
+				return e
+			})
+			if crash != "" {
+				w.poisoned = true
+				out.Viol = append(out.Viol, bfs.Viol{Key: "message-crashes-instance:" + op.Kind, What: fmt.Sprintf("after %v the instance does not answer %s: it panics (%s); a message is refused or acted on, and a daemon that panics is gone", path[:step], op, crash)})
+				return out, nil
 			}
 			if !m.active {
 				if err == nil {
